@@ -67,7 +67,12 @@ def fam_rotation(ctx, rng):
             other.orient_sensor_to(angle(rng))
         meta = other.meta if rng.random() < 0.5 else dict(other.meta, site="campaign")
         ctx.count("recordings_built_with_metadata_of_another_recording")
-    rec = gen.make_recording(ns0, ew0, Z, 0.01, degrees_from_north=theta, meta=meta)
+    # whole / half degrees are handed over as whatever numeric type the caller's loop or file produced (same value)
+    if rng.random() < 0.3:
+        theta = float(rng.choice([0., 30., 45., 90., 200., 12.5, 270., 359.]))
+        ns0, ew0 = deployed(N, E, theta)
+    theta_arg, theta_type = gen.scalar_form(rng, theta)
+    rec = gen.make_recording(ns0, ew0, Z, 0.01, degrees_from_north=theta_arg, meta=meta)
     scale = float(np.max(np.abs(np.concatenate([N, E])))) + 1e-300
     targets = [0.0] + [angle(rng) for _ in range(int(rng.integers(0, 6)))]
     rng.shuffle(targets)
@@ -77,14 +82,19 @@ def fam_rotation(ctx, rng):
     stored0 = rec.degrees_from_north
     ctx.check(abs(((stored0 - theta) + 180) % 360 - 180) < 1e-9, "orientation-recorded",
               "constructor does not store the deployed orientation (mod 360)", stored=stored0, theta=theta)
+    if rng.random() < 0.3:
+        targets = [float(rng.choice([0., 10., 30., 45., 90., 200., 12.5, 255., 359., -90., 720.])) for _ in targets]
     for tg in targets:
-        rec.orient_sensor_to(tg)
+        tg_arg, tg_type = gen.scalar_form(rng, tg)
+        if tg_type != "float":
+            ctx.count("angles_given_as:" + tg_type)
+        rec.orient_sensor_to(tg_arg)
         ctx.count("orient_calls")
         want_ns, want_ew = deployed(N, E, tg)
         tol = 1e-9 * scale * (1 + abs(tg) / 360 + abs(theta) / 360)
         ok = bool(np.all(np.abs(rec.ns.amplitude - want_ns) <= tol) and np.all(np.abs(rec.ew.amplitude - want_ew) <= tol))
         ctx.check(ok, "rotation-matches-ground-truth", f"after orient_sensor_to({tg}) the horizontals are not the ground "
-                  "motion seen by a sensor pointing to that azimuth", psi=psi, theta=theta, target=tg,
+                  "motion seen by a sensor pointing to that azimuth", psi=psi, theta=theta, target=tg, target_given_as=tg_type, deployed_given_as=theta_type,
                   err_ns=float(np.max(np.abs(rec.ns.amplitude - want_ns)) / scale),
                   err_ew=float(np.max(np.abs(rec.ew.amplitude - want_ew)) / scale))
         e2 = rec.ns.amplitude ** 2 + rec.ew.amplitude ** 2
